@@ -172,6 +172,8 @@ def dev_classes(d, dmax=None, idx=None):
         base = 16 if c in "xX" else 8 if c == "o" else 10
         hasp = d.prec is not None              # the engine: FLAGS_PRECISION
         pe = 0 if (p is None) else p           # the engine's precision number
+        if isinstance(d.prec, tuple) and d.prec[1] < 0 and "negative-star-precision" in REPAIRED:
+            hasp, pe = False, 0                # repaired: a negative '*' precision is taken as omitted (C11 7.21.6.1p5)
         nd = len(to_base(a, base, False)) if a else (0 if hasp else 1)
         zp = "0" in f and not hasp and not minus
         hash_ = "#" in f and c in "xXo" and a != 0
@@ -199,7 +201,21 @@ def dev_classes(d, dmax=None, idx=None):
         cl.append("lc-nul" if d.val == 0 else "lc-clobbers-dest")
     if c == "s" and d.ln == "" and d.val is not None and d.prec is not None and p == 0 and len(d.val) > 0:
         cl.append("s-precision0-precheck")
-    return [x for x in CLASS_ORDER if x in cl]
+    return [x for x in CLASS_ORDER if x in cl and x not in REPAIRED]
+
+
+# classes whose repair is in the tree: the model says which switches of `Fixes` are on (`pf=fixes`); an input of such a
+# class is expected to behave like C now, so the class no longer labels (or excuses) anything
+REPAIRED = set()
+FIX_CLASSES = [("minus-drops-precision",), ("hash-takes-digits", "hash-octal-precision"), ("negative-star-precision",),
+               ("lc-clobbers-dest",), ("s-precision0-precheck",), ()]
+
+
+def set_repaired(bits):
+    REPAIRED.clear()
+    for b, cls in zip(bits or "", FIX_CLASSES):
+        if b == "1":
+            REPAIRED.update(cls)
 
 
 # ------------------------------------------------------------------ cases
@@ -775,6 +791,7 @@ def run(tier, seed, replay=None):
     if drv_ok:
         fxo, _, _ = proto.run_lines([orch.MODEL_BIN], ["id=0 pf=fixes"])
         res.extra["model_fixes"] = dict(order="minusPrec,hash,negStarPrec,lcMemcpy,strPrec0,sprintfExact", current=fxo.get("0", {}).get("fx"), override=fx.strip() or None)
+        set_repaired(fxenv if fx else fxo.get("0", {}).get("fx"))
     rng = random.Random(seed * 7919 + 11)
     t0 = time.time()
     thorough = tier != "quick"
